@@ -1463,53 +1463,143 @@ def leg_subprocess(ctx, P, rng, n_convert, n_commute, n_jit):
         conv.append({"leg": "convert", "spec": spec, "kind": "unit:z", "route": "data", "mode": "S",
                      "cart": {"cls": "cartesian", "bounds": [[1.2, 2.0], [0.8, 1.6], [0.5, 3.5]], "shape": [2, 2, 3]},
                      "comps": [{"": 0.0}, {"": 1.0}, {"": 0.0}]})
+    prods = []
+    for i in range(max(4, n_commute // 6)):
+        cls = ["polar", "spherical", "cylindrical", "cartesian", "unit"][i % 5]
+        spec = gen_curv_grid(rng, cls, 1, 6) if cls in OP_ORDER else gen_cart_grid(rng, unit=(cls == "unit"))
+        prods.append({"leg": "products", "spec": spec, "data_seed": rng.randrange(2 ** 31), "mode": "S"})
+    comm = comm + prods
     jit = []
     for i in range(n_jit):
         src = conv if i % 2 == 0 else comm
         c = dict(src[rng.randrange(len(src))], mode="J")
         jit.append(c)
+    # the compiled dot/outer operators (about 30 s of compilation each): one grid in the quick tier, spread over
+    # the worker processes
+    # operators of their own (one grid in the quick tier, 3 operators there), run in their own processes
+    n_pj = 0 if not n_jit else (1 if n_jit <= 8 else 4)
+    pj = [dict(prods[(i + rng.randrange(5)) % len(prods)], mode="J",
+               ops=(["vt", "tv", "outer"] if n_pj == 1 else None)) for i in range(n_pj)]
     # source semantics (10 processes) and JIT (6 processes) side by side
     import os
     import threading
+    import time
+    t0 = time.time()
     box = {}
     base = os.environ.get("VERIF_WORKDIR") or "."
 
+    tdone = {}
+
     def go(name, cases, env, procs):
         try:
-            box[name] = run_many("harness.c19", "sub_worker", cases, env=env, procs=procs,
-                                 workdir=os.path.join(base, "iso_" + name)) if cases else []
+            try:
+                box[name] = _go(name, cases, env, procs)
+            finally:
+                tdone[name] = round(time.time() - t0, 1)
         except BaseException as e:  # re-raised in the main thread
             box[name] = e
-    th = [threading.Thread(target=go, args=("S", conv + comm, {"NUMBA_DISABLE_JIT": "1"}, 10 if jit else 16)),
-          threading.Thread(target=go, args=("J", jit, {"NUMBA_DISABLE_JIT": "0"}, 6))]
+
+    def _go(name, cases, env, procs):
+        if True:
+            return run_many("harness.c19", "sub_worker", cases, env=env, procs=procs,
+                            workdir=os.path.join(base, "iso_" + name)) if cases else []
+    th = [threading.Thread(target=go, args=("S", conv + comm, {"NUMBA_DISABLE_JIT": "1"}, 8 if jit else 16)),
+          threading.Thread(target=go, args=("J", jit, {"NUMBA_DISABLE_JIT": "0", "NUMBA_NUM_THREADS": "2", "OMP_NUM_THREADS": "1"}, 6)),
+          threading.Thread(target=go, args=("PJ", pj, {"NUMBA_DISABLE_JIT": "0", "NUMBA_NUM_THREADS": "2", "OMP_NUM_THREADS": "1"}, 2))]
     for t in th:
         t.start()
     for t in th:
         t.join()
+    if hasattr(ctx, "extra"):
+        ctx.extra["timing_subprocess_s"] = dict(tdone)
     for v in box.values():
         if isinstance(v, BaseException):
             raise v
-    res_s, res_j = box["S"], box["J"]
+    res_s, res_j = box["S"], list(box["J"]) + list(box["PJ"])
+    jit = jit + pj
     for case, out in zip(conv + comm + jit, list(res_s) + list(res_j)):
         if case["leg"] == "convert":
             convert_eval(ctx, P, case, out)
+        elif case["leg"] == "products":
+            products_eval(ctx, case, out)
         else:
             commute_eval(ctx, case, out)
 
 
+def products_data(spec, seed):
+    g = build(spec)
+    d = g.dim
+    rs = np.random.RandomState(seed)
+    mk = lambda *lead: rs.randint(-16, 17, size=lead + tuple(g.shape)) / 4.0
+    return g, d, mk(d), mk(d), mk(d, d), mk(d, d)
+
+
+def products_worker(case):
+    """the numba operator factories for dot and outer products (compiled in mode J)"""
+    import pde
+    g, d, u, x, T, S = products_data(case["spec"], case["data_seed"])
+    uf, Tf = pde.VectorField(g, u), pde.Tensor2Field(g, T)
+    dv = uf.make_dot_operator(backend="numba")
+    dt = Tf.make_dot_operator(backend="numba")
+    op = uf.make_outer_prod_operator(backend="numba")
+    # (the compiled dot operator cannot be called with an `out` array on this tree: the overload's
+    # `out`-branch refers to shapes defined in the other branch - an exception, outside C19, see notes)
+    calls = {"vv": lambda: dv(u, x), "vt": lambda: dv(u, T), "tv": lambda: dt(T, x), "tt": lambda: dt(T, S),
+             "outer": lambda: op(u, x)}
+    return {k: np.asarray(f()) for k, f in calls.items() if not case.get("ops") or k in case["ops"]}
+
+
+def products_eval(ctx, case, out):
+    spec = case["spec"]
+    if isinstance(out, str):
+        ctx.monitor_fail("products", case, out[-600:], "products", "products: exception in py-pde",
+                         key=other_key(spec, "make_dot_operator(numba)", "exception"))
+        return
+    g, d, u, x, T, S = products_data(spec, case["data_seed"])
+    ctx.count(case, nontrivial=True, leg="products")
+    ctx.hist("products", f"{spec['cls']}/{case['mode']}")
+    ctx.monitor_evals += 1
+    ctx.impl_traces += 1
+    mon = {"vv": sum(u[i] * x[i] for i in range(d)),
+           "vt": np.array([sum(u[i] * T[i, j] for i in range(d)) for j in range(d)]),
+           "tv": np.array([sum(T[i, j] * x[j] for j in range(d)) for i in range(d)]),
+           "tt": np.array([[sum(T[i, k] * S[k, j] for k in range(d)) for j in range(d)] for i in range(d)]),
+           "outer": np.array([[u[i] * x[j] for j in range(d)] for i in range(d)])}
+    for k, v in mon.items():
+        if k not in out:
+            continue
+        if np.shape(out[k]) != np.shape(v) or not np.array_equal(out[k], v):
+            ctx.monitor_fail("products", dict(case, product=k), "differs from the explicit sum",
+                             "explicit sum over the contracted index",
+                             "numba dot/outer operator contracts adjacent indices",
+                             key=other_key(spec, "make_dot_operator / make_outer_prod_operator (numba)",
+                                           "wrong index contracted"))
+
+
 def sub_worker(case):
+    if case["leg"] == "products":
+        return products_worker(case)
     return convert_worker(case) if case["leg"] == "convert" else commute_worker(case)
 
 
 def run(ctx):
+    import time
     P = Pending(ctx)
     rng = ctx.rng
-    leg_coordsys(ctx, P, rng, ctx.budget(300, 6000))
-    leg_vtc(ctx, P, rng, ctx.budget(300, 6000))
-    leg_order(ctx, P, rng, ctx.budget(40, 400))
-    leg_fields(ctx, P, rng, ctx.budget(60, 1200))
-    leg_subprocess(ctx, P, rng, ctx.budget(160, 3000), ctx.budget(60, 800), ctx.budget(8, 48))
-    P.run()
+    timing = {}
+
+    def timed(name, f, *a):
+        t = time.time()
+        f(*a)
+        timing[name] = round(time.time() - t, 1)
+    timed("coordsys", leg_coordsys, ctx, P, rng, ctx.budget(300, 6000))
+    timed("vtc", leg_vtc, ctx, P, rng, ctx.budget(300, 12000))
+    timed("order", leg_order, ctx, P, rng, ctx.budget(40, 400))
+    timed("fields", leg_fields, ctx, P, rng, ctx.budget(60, 600))
+    timed("subprocess legs (convert, commute, products; S and J)", leg_subprocess, ctx, P, rng,
+          ctx.budget(160, 3000), ctx.budget(60, 800), ctx.budget(6, 48))
+    timed("model driver", P.run)
+    ctx.extra["timing_s"] = timing
 
 
 # ------------------------------------------------------------------------------------------
@@ -1526,11 +1616,13 @@ def run_case(col, P, case):
         order_case(col, P, case)
     elif leg == "fields":
         fields_case(col, P, case)
-    elif leg in ("convert", "commute"):
+    elif leg in ("convert", "commute", "products"):
         env = {"NUMBA_DISABLE_JIT": "0" if case.get("mode") == "J" else "1"}
         out = run_one("harness.c19", "sub_worker", case, env=env)
         if leg == "convert":
             convert_eval(col, P, case, out)
+        elif leg == "products":
+            products_eval(col, case, out)
         else:
             commute_eval(col, case, out)
     elif leg == "vtc-malformed":
